@@ -413,8 +413,8 @@ __CPROVER_ensures(IS_RES_STATE(connp->out_state))
 /* region handed to the line logic: a readable range of *len bytes (L1 of C03 is enforced on the real function) */
 htp_status_t contract_htp_connp_req_consolidate_data(htp_connp_t *connp, unsigned char **data, size_t *len)
 __CPROVER_requires(__CPROVER_rw_ok(connp, sizeof(*connp)) && __CPROVER_w_ok(data, sizeof(*data)) && __CPROVER_w_ok(len, sizeof(*len)))
-__CPROVER_assigns(g_consol_n, *data, *len, connp->in_buf, connp->in_buf_size, connp->in_current_consume_offset)
-__CPROVER_ensures(g_consol_n == 1)
+__CPROVER_assigns(g_consol_n, g_consol_len, *data, *len, connp->in_buf, connp->in_buf_size, connp->in_current_consume_offset)
+__CPROVER_ensures(g_consol_n == 1 && (__CPROVER_return_value == HTP_OK ==> g_consol_len == *len))
 __CPROVER_ensures(__CPROVER_return_value == HTP_OK || __CPROVER_return_value == HTP_ERROR)
 __CPROVER_ensures(__CPROVER_return_value == HTP_OK ==> (*len <= LINE_CAP && __CPROVER_is_fresh(*data, *len)))
 __CPROVER_ensures(connp->in_current_consume_offset == O(connp->in_current_consume_offset) || connp->in_current_consume_offset == connp->in_current_read_offset)
@@ -551,6 +551,123 @@ __CPROVER_ensures((O(connp->out_current_read_offset) < O(connp->out_current_len)
 __CPROVER_ensures((O(connp->out_current_read_offset) < O(connp->out_current_len) && (O(connp->out_next_tx_index) >= O(TXL(connp)->current_size))) ==>
     (g_create_n == 1 && (__CPROVER_return_value == HTP_ERROR || (connp->out_tx != NULL && connp->out_tx == connp->in_tx && connp->out_tx->index == O(TXL(connp)->current_size) &&
      connp->out_next_tx_index == O(connp->out_next_tx_index) + 1 && connp->in_state == htp_connp_REQ_FINALIZE))))
+__CPROVER_ensures(RS_COMMON_POST(connp))
+;
+
+/* ==== small request states ============================================================================ */
+/* framing decision -> body state; establishes the facts the body states require (bytes owed > 0) */
+htp_status_t contract_htp_connp_REQ_BODY_DETERMINE(htp_connp_t *connp)
+__CPROVER_requires(RQ_PRE(connp, htp_connp_REQ_BODY_DETERMINE))
+/* established by header processing (C11 unit): identity framing comes with a non-negative length */
+__CPROVER_requires(connp->in_tx->request_transfer_coding == HTP_CODING_IDENTITY ==> connp->in_tx->request_content_length >= 0)
+__CPROVER_assigns(connp->in_state, connp->in_content_length, connp->in_body_data_left, connp->in_tx->request_progress)
+__CPROVER_ensures(connp->in_tx->request_transfer_coding == HTP_CODING_CHUNKED ==> (__CPROVER_return_value == HTP_OK && connp->in_state == htp_connp_REQ_BODY_CHUNKED_LENGTH && connp->in_tx->request_progress == HTP_REQUEST_BODY))
+__CPROVER_ensures(connp->in_tx->request_transfer_coding == HTP_CODING_IDENTITY ==> (__CPROVER_return_value == HTP_OK &&
+    connp->in_body_data_left == connp->in_tx->request_content_length && connp->in_content_length == connp->in_tx->request_content_length &&
+    (connp->in_tx->request_content_length != 0 ? (connp->in_state == htp_connp_REQ_BODY_IDENTITY && connp->in_body_data_left > 0 && connp->in_tx->request_progress == HTP_REQUEST_BODY)
+                                               : connp->in_state == htp_connp_REQ_FINALIZE)))
+__CPROVER_ensures(connp->in_tx->request_transfer_coding == HTP_CODING_NO_BODY ==> (__CPROVER_return_value == HTP_OK && connp->in_state == htp_connp_REQ_FINALIZE))
+__CPROVER_ensures((connp->in_tx->request_transfer_coding != HTP_CODING_CHUNKED && connp->in_tx->request_transfer_coding != HTP_CODING_IDENTITY &&
+                   connp->in_tx->request_transfer_coding != HTP_CODING_NO_BODY) ==> (__CPROVER_return_value == HTP_ERROR && connp->in_state == O(connp->in_state)))
+/* progress never moves backwards */
+__CPROVER_ensures(connp->in_tx->request_progress >= O(connp->in_tx->request_progress) || O(connp->in_tx->request_progress) > HTP_REQUEST_BODY)
+__CPROVER_ensures(RQ_COMMON_POST(connp))
+;
+/* after an HTTP/0.9 request everything that follows is drained and flagged */
+htp_status_t contract_htp_connp_REQ_IGNORE_DATA_AFTER_HTTP_0_9(htp_connp_t *connp)
+__CPROVER_requires(CUR_IN(connp) && __CPROVER_is_fresh(connp->conn, sizeof(htp_conn_t)) && RQ_SELF(connp, htp_connp_REQ_IGNORE_DATA_AFTER_HTTP_0_9))
+__CPROVER_assigns(connp->conn->flags, connp->in_current_read_offset, connp->in_current_consume_offset, connp->in_stream_offset)
+__CPROVER_ensures(__CPROVER_return_value == HTP_DATA && connp->in_current_read_offset == connp->in_current_len)
+__CPROVER_ensures(connp->in_stream_offset == O(connp->in_stream_offset) + (O(connp->in_current_len) - O(connp->in_current_read_offset)))
+__CPROVER_ensures(connp->in_current_consume_offset == O(connp->in_current_consume_offset) + (O(connp->in_current_len) - O(connp->in_current_read_offset)))
+__CPROVER_ensures(connp->conn->flags == (O(connp->in_current_len) > O(connp->in_current_read_offset) ? (O(connp->conn->flags) | HTP_CONN_HTTP_0_9_EXTRA) : O(connp->conn->flags)))
+__CPROVER_ensures(RQ_COMMON_POST(connp))
+;
+htp_status_t contract_site_htp_tx_state_request_start(htp_tx_t *tx)
+__CPROVER_requires(tx != NULL && __CPROVER_rw_ok(tx, sizeof(*tx)) && __CPROVER_rw_ok(tx->connp, sizeof(htp_connp_t)))
+__CPROVER_assigns(g_txstate_n, g_txstate_which, tx->connp->in_state, tx->request_progress)
+__CPROVER_ensures(g_txstate_n == 1 && g_txstate_which == 2 && (__CPROVER_return_value == HTP_OK || __CPROVER_return_value == HTP_STOP || __CPROVER_return_value == HTP_ERROR))
+__CPROVER_ensures(__CPROVER_return_value == HTP_OK ? tx->connp->in_state == htp_connp_REQ_LINE : tx->connp->in_state == O(tx->connp->in_state))
+;
+/* a new request transaction is started only when at least one byte is available */
+htp_status_t contract_htp_connp_REQ_IDLE(htp_connp_t *connp)
+__CPROVER_requires(CUR_IN(connp) && !g_in_gap && RQ_SELF(connp, htp_connp_REQ_IDLE) && __CPROVER_is_fresh(connp->conn, sizeof(htp_conn_t)) && WF_LIST_PRE(TXL(connp)))
+__CPROVER_requires(g_create_n == 0 && g_txstate_n == 0 && TXL(connp)->current_size < LCAP && connp->in_tx == NULL)
+__CPROVER_assigns(g_create_n, g_txstate_n, g_txstate_which, TXL(connp)->current_size, connp->conn->flags, connp->in_tx, connp->in_content_length, connp->in_body_data_left,
+                  connp->in_chunk_request_index, connp->in_state)
+__CPROVER_ensures(O(connp->in_current_read_offset) >= O(connp->in_current_len) ==> (__CPROVER_return_value == HTP_DATA && g_create_n == 0 && g_txstate_n == 0 &&
+    connp->in_tx == O(connp->in_tx) && connp->in_state == O(connp->in_state) && TXL(connp)->current_size == O(TXL(connp)->current_size)))
+__CPROVER_ensures(O(connp->in_current_read_offset) < O(connp->in_current_len) ==> (g_create_n == 1 &&
+    (connp->in_tx == NULL ? (__CPROVER_return_value == HTP_ERROR && TXL(connp)->current_size == O(TXL(connp)->current_size))
+                          : (TXL(connp)->current_size == O(TXL(connp)->current_size) + 1 && connp->in_tx->index == O(TXL(connp)->current_size) && g_txstate_n == 1))))
+/* REQ_IDLE ignores the result of request_start (it always reports OK once the transaction exists) */
+__CPROVER_ensures(RQ_COMMON_POST(connp))
+;
+
+/* ==== chunk-size line (C06) ============================================================================ */
+int contract_htp_chomp(unsigned char *data, size_t *len)
+__CPROVER_requires(__CPROVER_rw_ok(len, sizeof(*len)))
+__CPROVER_assigns(*len)
+__CPROVER_ensures(*len <= O(*len))
+;
+int64_t contract_site_htp_parse_chunked_length(unsigned char *data, size_t len, int *extension)
+__CPROVER_requires(__CPROVER_rw_ok(extension, sizeof(int)))
+__CPROVER_assigns(*extension, g_pcl_value)
+/* enforced by unit htp_parse_chunked_length (C17): never above INT32_MAX */
+__CPROVER_ensures(__CPROVER_return_value <= INT32_MAX && __CPROVER_return_value == g_pcl_value)
+;
+htp_status_t contract_htp_connp_REQ_BODY_CHUNKED_LENGTH(htp_connp_t *connp)
+__CPROVER_requires(RQ_PRE(connp, htp_connp_REQ_BODY_CHUNKED_LENGTH) && g_consol_n == 0 && g_clear_n == 0)
+__CPROVER_assigns(g_consol_n, g_consol_len, g_clear_n, g_pcl_value, connp->in_next_byte, connp->in_current_read_offset, connp->in_stream_offset, connp->in_current_consume_offset,
+                  connp->in_buf, connp->in_buf_size, connp->in_chunked_length, connp->in_state, connp->in_tx->request_message_len, connp->in_tx->request_progress)
+/* line not complete: every available byte was copied, none of them is LF, nothing is decided or counted yet */
+__CPROVER_ensures(__CPROVER_return_value == HTP_DATA_BUFFER ==> (connp->in_current_read_offset == connp->in_current_len && g_consol_n == 0 && g_clear_n == 0 &&
+    connp->in_state == O(connp->in_state) && connp->in_chunked_length == O(connp->in_chunked_length) && connp->in_tx->request_message_len == O(connp->in_tx->request_message_len) &&
+    ((gk < CHUNK_CAP && (int64_t) gk >= O(connp->in_current_read_offset) && (int64_t) gk < connp->in_current_len) ==> connp->in_current_data[gk] != LF)))
+/* line complete: it ends at the FIRST LF; the whole line (buffered part + this chunk's part) is counted in the message length and then discarded */
+__CPROVER_ensures((__CPROVER_return_value == HTP_OK || __CPROVER_return_value == HTP_ERROR) ==> (
+    (g_consol_n == 1) && (g_clear_n == 1 ==> (connp->in_current_read_offset > O(connp->in_current_read_offset) && connp->in_current_data[connp->in_current_read_offset - 1] == LF &&
+    connp->in_tx->request_message_len == O(connp->in_tx->request_message_len) + (int64_t) g_consol_len && connp->in_chunked_length == g_pcl_value &&
+    ((gk < CHUNK_CAP && (int64_t) gk >= O(connp->in_current_read_offset) && (int64_t) gk + 1 < connp->in_current_read_offset) ==> connp->in_current_data[gk] != LF)))))
+/* the decision: positive => chunk data with that many bytes owed; zero => trailers; negative => error */
+__CPROVER_ensures((__CPROVER_return_value == HTP_OK) ==> (g_clear_n == 1 && connp->in_chunked_length >= 0 &&
+    (connp->in_chunked_length > 0 ? connp->in_state == htp_connp_REQ_BODY_CHUNKED_DATA : (connp->in_state == htp_connp_REQ_HEADERS && connp->in_tx->request_progress == HTP_REQUEST_TRAILER))))
+__CPROVER_ensures((g_clear_n == 1 && connp->in_chunked_length < 0) ==> __CPROVER_return_value == HTP_ERROR)
+__CPROVER_ensures(connp->in_stream_offset == O(connp->in_stream_offset) + (connp->in_current_read_offset - O(connp->in_current_read_offset)))
+__CPROVER_ensures(RQ_COMMON_POST(connp))
+;
+
+/* response side buffer stubs */
+htp_status_t contract_htp_connp_res_consolidate_data(htp_connp_t *connp, unsigned char **data, size_t *len)
+__CPROVER_requires(__CPROVER_rw_ok(connp, sizeof(*connp)) && __CPROVER_w_ok(data, sizeof(*data)) && __CPROVER_w_ok(len, sizeof(*len)))
+__CPROVER_assigns(g_consol_n, g_consol_len, *data, *len, connp->out_buf, connp->out_buf_size, connp->out_current_consume_offset)
+__CPROVER_ensures(g_consol_n == 1 && (__CPROVER_return_value == HTP_OK ==> g_consol_len == *len))
+__CPROVER_ensures(__CPROVER_return_value == HTP_OK || __CPROVER_return_value == HTP_ERROR)
+__CPROVER_ensures(__CPROVER_return_value == HTP_OK ==> (*len <= LINE_CAP && __CPROVER_is_fresh(*data, *len)))
+__CPROVER_ensures(connp->out_current_consume_offset == O(connp->out_current_consume_offset) || connp->out_current_consume_offset == connp->out_current_read_offset)
+;
+void contract_htp_connp_res_clear_buffer(htp_connp_t *connp)
+__CPROVER_requires(__CPROVER_rw_ok(connp, sizeof(*connp)))
+__CPROVER_assigns(g_clear_n, connp->out_buf, connp->out_buf_size, connp->out_current_consume_offset)
+__CPROVER_ensures(g_clear_n == 1 && connp->out_buf == NULL && connp->out_buf_size == 0 && connp->out_current_consume_offset == connp->out_current_read_offset)
+;
+/* response chunk-size line: like the request side, plus (a) empty lines are skipped, (b) an invalid size falls back to a close-delimited body
+ * with the line un-read so that none of its bytes is lost, (c) leading junk ends the line early (probe) */
+htp_status_t contract_htp_connp_RES_BODY_CHUNKED_LENGTH(htp_connp_t *connp)
+__CPROVER_requires(CUR_OUT(connp) && TX_OUT(connp) && !g_in_gap && RS_SELF(connp, htp_connp_RES_BODY_CHUNKED_LENGTH) && g_consol_n == 0 && g_clear_n == 0)
+__CPROVER_assigns(g_consol_n, g_consol_len, g_clear_n, g_pcl_value, connp->out_next_byte, connp->out_current_read_offset, connp->out_stream_offset, connp->out_current_consume_offset,
+                  connp->out_buf, connp->out_buf_size, connp->out_chunked_length, connp->out_state, connp->out_tx->response_message_len, connp->out_tx->response_progress,
+                  connp->out_tx->response_transfer_coding)
+__CPROVER_ensures(__CPROVER_return_value == HTP_DATA_BUFFER || __CPROVER_return_value == HTP_OK || __CPROVER_return_value == HTP_ERROR)
+__CPROVER_ensures(__CPROVER_return_value == HTP_DATA_BUFFER ==> (connp->out_current_read_offset == connp->out_current_len && connp->out_state == O(connp->out_state)))
+__CPROVER_ensures(__CPROVER_return_value == HTP_OK ==> (
+    (connp->out_chunked_length > 0 && connp->out_state == htp_connp_RES_BODY_CHUNKED_DATA && g_clear_n == 1) ||
+    (connp->out_chunked_length == 0 && connp->out_state == htp_connp_RES_HEADERS && connp->out_tx->response_progress == HTP_RESPONSE_TRAILER && g_clear_n == 1) ||
+    /* invalid size: body continues as close-delimited identity data; the buffer is NOT cleared and the read cursor is moved back */
+    (connp->out_chunked_length < 0 && connp->out_chunked_length != -1004 && connp->out_state == htp_connp_RES_BODY_IDENTITY_STREAM_CLOSE &&
+     connp->out_tx->response_transfer_coding == HTP_CODING_IDENTITY && g_clear_n == 0)))
+__CPROVER_ensures(connp->out_chunked_length <= INT32_MAX || connp->out_chunked_length == O(connp->out_chunked_length))
+__CPROVER_ensures(connp->out_tx->response_message_len >= O(connp->out_tx->response_message_len))
 __CPROVER_ensures(RS_COMMON_POST(connp))
 ;
 #endif
